@@ -122,7 +122,7 @@ def effective_rows(rows):
 def gen(rng, prop=None):
     entry = rng.choice(["us", "us", "jp", "es", "ie", "generic"])
     facts = country_facts(entry)
-    n_assets = rng.randint(1, 3)
+    n_assets = rng.randint(1, 3) if prop != "C17" else rng.randint(2, 3)
     assets = {}
     cfee = {}
     days = []
@@ -153,12 +153,16 @@ def gen(rng, prop=None):
             "only": rng.choice(list(assets)) if rng.random() < 0.15 else None, "sched": sched, "assets": assets, "cfee": cfee, "fault": None, "prefix": rng.choice(["", "x_"])}
     if prop == "C18" and rng.random() < 0.3:
         case["fault"] = rng.choice(FAULTS)
+    if prop == "C18" and rng.random() < 0.12:
+        case["variant"] = "log-is-a-file"
     if prop == "C12" and rng.random() < 0.7:
         case["fault"] = rng.choice(FAULTS)
         if case["fault"] == "asset-without-sheet":
             case["only"] = None
     if prop == "C17":
-        case["variant"] = rng.choice(["hashseed", "stale-output", "single-asset", "repeat"])
+        case["variant"] = rng.choice(["hashseed", "stale-output", "single-asset", "single-asset", "repeat"])
+        if case["variant"] == "single-asset" and len(facts["methods"]) > 1 and rng.random() < 0.7:
+            case["method"], case["sched"], case["only"] = rng.choice(["hifo", "lofo", "lifo"]), None, None
     return case
 
 
@@ -604,6 +608,15 @@ def oracle_c12(case, res, guard=True):
 
 
 def oracle_c18(case, res, guard=True):
+    if case.get("variant") == "log-is-a-file" and "variant_done" not in res:
+        # a fresh process started in a directory where ./log cannot be created: nothing may be written anywhere else
+        r2 = run_subprocess(case, 0, log_is_file=True)
+        r2["variant_done"] = True
+        v = oracle_c18(case, r2, guard)
+        if v:
+            return "started where ./log is a regular file: " + v
+        if not r2["log_file_intact"]:
+            return "started where ./log is a regular file: that file was modified"
     d = res.get("dir", "")
     out = os.path.join(d, "out")
     logd = os.path.join(d, "log")
@@ -683,17 +696,59 @@ def canon(res):
     return {"exit": res["exit"], "files": res["files"], "rows": sorted(json.dumps(r, default=str) for r in res["rows"]), "legend": res.get("legend")}
 
 
-def run_subprocess(case, hashseed):
-    """a real interpreter start (needed for PYTHONHASHSEED); returns canonical output"""
+BOOT = """
+import sys, os, json
+events = []
+W = %r
+FB = %r
+EVF = %r
+def hook(ev, args):
+    try:
+        if ev == "open":
+            path, mode, flags = args
+            if os.path.abspath(str(path)) == EVF:
+                return
+            if (isinstance(mode, str) and any(c in mode for c in "wax+")) or (mode is None and isinstance(flags, int) and flags & (os.O_WRONLY | os.O_RDWR | os.O_CREAT)):
+                events.append(["write-open", os.path.abspath(str(path))])
+        elif ev.startswith("socket.") or ev in FB:
+            events.append([ev, str(args)[:120]])
+        elif ev in W:
+            events.append([ev, os.path.abspath(str(args[0]))])
+    except Exception:
+        pass
+sys.addaudithook(hook)
+import atexit
+atexit.register(lambda: open(EVF, "w").write(json.dumps(events[:400])))
+sys.argv = %r
+from rp2.plugin.country.%s import rp2_entry
+rp2_entry()
+"""
+
+
+def run_subprocess(case, hashseed, log_is_file=False):
+    """a real interpreter start (needed for PYTHONHASHSEED and for import-time behaviour), audited; returns the collected result"""
     d = os.path.join(SCR, "cli_sub")
     shutil.rmtree(d, ignore_errors=True)
     os.makedirs(d)
     write_inputs(case, d)
+    if log_is_file:
+        open(os.path.join(d, "log"), "w").write("not a directory")
     argv = argv_of(case, d)
+    evf = os.path.join(SCR, "cli_sub_events.json")
+    if os.path.exists(evf):
+        os.remove(evf)
     env = dict(os.environ, PYTHONHASHSEED=str(hashseed))
-    code = f"import sys; sys.argv={argv!r}; from rp2.plugin.country.{case['entry']} import rp2_entry; rp2_entry()"
+    code = BOOT % (WRITE_EVENTS, FORBIDDEN_EVENTS, evf, argv, case["entry"])
     p = subprocess.run([sys.executable, "-c", code], cwd=d, env=env, capture_output=True, text=True, timeout=120)
-    return collect(case, d, {"exit": p.returncode, "events": []})
+    try:
+        events = json.load(open(evf))
+    except Exception:
+        events = []
+    r = collect(case, d, {"exit": p.returncode, "events": events})
+    r["dir"] = d
+    r["inputs_unchanged"] = True
+    r["log_file_intact"] = (not log_is_file) or (os.path.isfile(os.path.join(d, "log")) and open(os.path.join(d, "log")).read() == "not a directory")
+    return r
 
 
 def oracle_c17(case, res, guard=True):
